@@ -838,3 +838,39 @@ Section Relayout.
       rewrite unflatC_flatC by exact Hr. reflexivity.
   Qed.
 End Relayout.
+
+(* ================================================================== *)
+(** * Part 5: consumers that declare their own [NoGrid] data shape *)
+Section ConsumerShape.
+  Open Scope nat_scope.
+
+  Lemma nogrid_compatible_eq a b : nogrid_compatible a b = true -> a = b.
+  Proof.
+    unfold nogrid_compatible. revert b; induction a as [|x a IH]; intros [|y b]; simpl; try discriminate; [reflexivity|].
+    intros H. apply andb_prop in H. destruct H as [H1 H2]. rewrite (IH _ H2). f_equal.
+    destruct x as [n|], y as [m|]; simpl in H1; try discriminate; [|reflexivity].
+    apply Nat.eqb_eq in H1. congruence.
+  Qed.
+
+  (** On an established link (the two [NoGrid]s are compatible) every accepted payload is delivered
+      with one leading time entry and a shape that fits the CONSUMER's declared data shape
+      (fixed axes agree, flexible axes take any length). *)
+  Theorem consumer_shape inf ui p f dsh dsh' :
+    i_grid inf = GNo dsh -> nogrid_compatible dsh dsh' = true ->
+    wf_arr (p_arr p) -> wf_mask inf (cell (i_grid inf) (a_shape (p_arr p)) f) ->
+    has_form (i_grid inf) (a_shape (p_arr p)) f -> units_ok inf p -> mask_ok (i_mask inf) (p_arr p) = true ->
+    compatible (i_units inf) ui = true ->
+    exists e d c,
+      prepare inf p = POk e /\ deliver (GNo dsh') ui e = RArr d ui
+      /\ a_shape d = 1 :: c /\ shape_valid c dsh' = true.
+  Proof.
+    intros Hg Hc Hwa Hwm Hf Hu Hm Hcu.
+    apply nogrid_compatible_eq in Hc. subst dsh'.
+    assert (wf_grid (i_grid inf)) as Hwf by (rewrite Hg; exact I).
+    destruct (payload_accepted_raw inf ui p f Hwf Hwa Hwm Hf Hu Hm Hcu) as [e [d [H1 [H2 [H3 _]]]]].
+    rewrite Hg in H2, H3, Hf. exists e, d.
+    destruct f; simpl in Hf; try contradiction; simpl in H3.
+    - exists (a_shape (p_arr p)). repeat split; assumption.
+    - destruct Hf as [c [E Hv]]. rewrite E in H3. simpl in H3. exists c. repeat split; assumption.
+  Qed.
+End ConsumerShape.
